@@ -192,6 +192,65 @@ pub fn stream_probe(junk: &[Vec<u8>]) -> Result<(), Fail> {
             return Err(fail!(format!("stream-probe-differs:{name}"), "fresh {}\nused  {}", truncate(&format!("{:?}", b), 400), truncate(&format!("{:?}", a), 400)));
         }
     }
+    // the incremental readers: junk in chunks, reset(), then a well-formed stream - as a fresh instance would analyse it
+    let h2_probe_frames = {
+        let mut v = vec![];
+        v.extend(h2::settings_frame(&[(3, 128), (4, 65536)], false));
+        v.extend(h2::window_update_frame(0, 2147418112, false));
+        v.extend(h2::frame(h2::T_HEADERS, 0x05, 1, &[0x82, 0x84, 0x87, 0x41, 0x01, 0x61]));
+        v
+    };
+    let with_preface: Vec<u8> = h2::PREFACE.iter().copied().chain(h2_probe_frames.iter().copied()).collect();
+    let hello = tls::simple_hello().record();
+    for chunk in [10usize, 4096] {
+        // small chunks make the extractors re-scan their buffer on every call: keep that pass short
+        let junk: Vec<&[u8]> = junk.iter().map(|j| if chunk < 100 { &j[..j.len().min(300)] } else { &j[..] }).collect();
+        for probe in [&with_preface, &h2_probe_frames] {
+            let run = |e: &mut huginn_net_http::Http2FingerprintExtractor| -> Result<String, String> {
+                catch(|| {
+                    let mut out = vec![];
+                    for c in probe.chunks(chunk) {
+                        out.push(format!("{:?}", e.add_bytes(c).map(|o| o.map(|f| f.fingerprint.clone()))));
+                    }
+                    out.push(format!("{:?}", e.get_fingerprint().map(|f| f.fingerprint.clone())));
+                    out.join(" | ")
+                })
+            };
+            let mut used = huginn_net_http::Http2FingerprintExtractor::new();
+            for j in &junk {
+                catch(|| {
+                    for c in j.chunks(chunk) {
+                        let _ = used.add_bytes(c);
+                    }
+                })
+                .map_err(|e| Fail::new(panic_key(&e), e))?;
+            }
+            catch(|| used.reset()).map_err(|e| Fail::new(panic_key(&e), e))?;
+            let a = run(&mut used).map_err(|e| Fail::new(panic_key(&e), e))?;
+            let b = run(&mut huginn_net_http::Http2FingerprintExtractor::new()).map_err(|e| Fail::new(panic_key(&e), e))?;
+            if a != b {
+                return Err(fail!("stream-probe-differs:h2-extractor-after-reset", "chunks of {chunk}: fresh {}\nused  {}", truncate(&b, 300), truncate(&a, 300)));
+            }
+        }
+        let runr = |r: &mut huginn_net_tls::tls_client_hello_reader::TlsClientHelloReader| -> Result<String, String> {
+            catch(|| hello.chunks(chunk.max(5)).map(|c| format!("{:?}", r.add_bytes(c).map(|o| o.map(|s| s.generate_ja4().full.value().to_string())).map_err(|e| e.to_string()))).collect::<Vec<_>>().join(" | "))
+        };
+        let mut used = huginn_net_tls::tls_client_hello_reader::TlsClientHelloReader::new();
+        for j in &junk {
+            catch(|| {
+                for c in j.chunks(chunk) {
+                    let _ = used.add_bytes(c);
+                }
+            })
+            .map_err(|e| Fail::new(panic_key(&e), e))?;
+        }
+        catch(|| used.reset()).map_err(|e| Fail::new(panic_key(&e), e))?;
+        let a = runr(&mut used).map_err(|e| Fail::new(panic_key(&e), e))?;
+        let b = runr(&mut huginn_net_tls::tls_client_hello_reader::TlsClientHelloReader::new()).map_err(|e| Fail::new(panic_key(&e), e))?;
+        if a != b {
+            return Err(fail!("stream-probe-differs:tls-reader-after-reset", "chunks of {chunk}: fresh {}\nused  {}", truncate(&b, 300), truncate(&a, 300)));
+        }
+    }
     Ok(())
 }
 
